@@ -19,6 +19,7 @@
 package simrt
 
 import (
+	"fmt"
 	"runtime"
 	"sync"
 	"sync/atomic"
@@ -165,6 +166,7 @@ type rt struct {
 	evseq     int64
 	presteps  [4096]int64
 	npre      int
+	escaped   string
 }
 
 type tabEnt struct {
@@ -764,7 +766,35 @@ func goMain(r *rt, idx int32, fn func()) {
 	raceEnable()
 	raceAcquireG(r, idx)
 	defer goExit(r, idx)
+	defer goRecover(r, idx)
 	fn()
+}
+
+// goRecover records a panic that escaped a managed goroutine. In production it
+// would have killed the server process; under simulation the run goes on so
+// that the harness can report it with the schedule that produced it.
+func goRecover(r *rt, idx int32) {
+	if p := recover(); p != nil {
+		buf := make([]byte, 2048)
+		n := runtime.Stack(buf, false)
+		r.mu.Lock()
+		if r.escaped == "" {
+			r.escaped = fmt.Sprintf("goroutine %d: %v\n%s", idx, p, buf[:n])
+		}
+		r.mu.Unlock()
+	}
+}
+
+// EscapedPanic returns the first panic that escaped a managed goroutine of the
+// current (or just stopped) run, or "".
+func EscapedPanic() string {
+	r := cur.Load()
+	if r == nil {
+		return ""
+	}
+	r.mu.Lock()
+	defer r.mu.Unlock()
+	return r.escaped
 }
 
 func goExit(r *rt, idx int32) {
